@@ -177,3 +177,89 @@ Proof.
   - rewrite (evaluate_accepted r v (subst_all_nn _ _ _ Hn Es) Ew). rewrite <- in_int32_ok, Ei. reflexivity.
 Qed.
 End Passes.
+
+(* ---------- definitions that refer to each other along a rank: the cycle check passes ---------- *)
+Section Ranked.
+Variable g : graph.
+Variable rk : text -> nat.
+Hypothesis Hrk : forall k refs r, g_find k g = Some refs -> In r refs -> (rk r < rk k)%nat.
+
+Lemma node_never_cyclic : forall f node visited, (forall x, In x visited -> (rk node < rk x)%nat) ->
+  node_cycle f g node visited <> Some true.
+Proof.
+  induction f as [|f IH]; intros node visited Hv; [discriminate|].
+  rewrite node_cycle_S. destruct (g_find node g) as [refs|] eqn:Eg; [|discriminate].
+  assert (G : forall rs, (forall r, In r rs -> In r refs) -> nc_go (node_cycle f g) node visited rs <> Some true).
+  { induction rs as [|r rs IHr]; intros Hsub; cbn [nc_go]; [discriminate|].
+    assert (Hr : (rk r < rk node)%nat) by (apply (Hrk node refs r Eg); apply Hsub; left; reflexivity).
+    destruct (mem_text r (visited ++ [node])) eqn:Em.
+    - exfalso. apply SubstFuel.mem_text_in in Em. apply in_app_or in Em. destruct Em as [Em|[Em|[]]].
+      + specialize (Hv r Em). lia.
+      + subst r. lia.
+    - pose proof (IH r (visited ++ [node])) as Hrec.
+      destruct (node_cycle f g r (visited ++ [node])) as [[|]|] eqn:En; try discriminate.
+      + exfalso. apply Hrec; [|reflexivity]. intros x Hx. apply in_app_or in Hx. destruct Hx as [Hx|[<-|[]]]; [specialize (Hv x Hx); lia|exact Hr].
+      + apply IHr. intros r0 H0. apply Hsub. right. exact H0. }
+  apply G. intros r Hr. exact Hr.
+Qed.
+
+Theorem ranked_no_cycle : graph_has_cycle g = Some false.
+Proof.
+  pose proof (cycle_check_total g) as Ht. rewrite graph_has_cycle_eq in *.
+  assert (G : forall ks, gc_go g ks <> Some true).
+  { induction ks as [|[k v] t IH]; cbn [gc_go]; [discriminate|].
+    pose proof (node_never_cyclic (S (S (length g))) k [] ltac:(intros x [])) as Hn.
+    destruct (node_cycle (S (S (length g))) g k []) as [[|]|]; try discriminate; [congruence|exact IH]. }
+  specialize (G g). destruct (gc_go g g) as [[|]|]; congruence.
+Qed.
+End Ranked.
+
+(* the expansion of the definitions cannot fail: every name it looks up is a definition *)
+Lemma expand_value_no_error values : forall f key res, sym_has key values = true ->
+  expand_value f values (build_graph values) key res <> Some None.
+Proof.
+  induction f as [|f IH]; intros key res Hk; [discriminate|].
+  rewrite expand_value_S. unfold sym_has in Hk. destruct (sym_find key values) as [value|] eqn:Ev; [|discriminate Hk].
+  destruct (sym_has key res); [discriminate|].
+  set (deps := match g_find key (build_graph values) with Some d => d | None => [] end).
+  assert (Hdeps : forall d, In d deps -> sym_has d values = true).
+  { unfold deps. destruct (g_find key (build_graph values)) as [d0|] eqn:Eg; [|intros d []].
+    intros d Hd. rewrite build_graph_bg in Eg.
+    assert (X : forall l, g_find key (bg values l) = Some d0 -> exists v, d0 = key_refs values v).
+    { unfold bg. induction l as [|[k0 v0] l IHl]; cbn [flat_map fst snd]; [discriminate|]. destruct v0 as [|t0 v0'].
+      - cbn [app]. exact IHl.
+      - cbn [app g_find]. destruct (text_eqb key k0); [intros E; inversion E; eexists; reflexivity|exact IHl]. }
+    destruct (X values Eg) as [v Ev0]. subst d0. rewrite key_refs_fold in Hd.
+    assert (Y : forall toks acc, (forall x, In x acc -> sym_has x values = true) -> forall x, In x (fold_left (key_step values) toks acc) -> sym_has x values = true).
+    { induction toks as [|t toks IHt]; intros acc Ha x Hx; [apply Ha; exact Hx|]. cbn [fold_left] in Hx. apply (IHt (key_step values acc t)); [|exact Hx].
+      intros y Hy. unfold key_step in Hy. destruct (t_typ t); try (apply Ha; exact Hy).
+      destruct (sym_has (t_val t) values && negb (mem_text (t_val t) acc)) eqn:Ec; [|apply Ha; exact Hy].
+      apply in_app_or in Hy. destruct Hy as [Hy|[<-|[]]]; [apply Ha; exact Hy|]. apply andb_prop in Ec. apply Ec. }
+    apply (Y v [] ltac:(intros x []) d Hd). }
+  assert (G : forall ds r0, (forall d, In d ds -> sym_has d values = true) -> ev_go (expand_value f values (build_graph values)) ds r0 <> Some None).
+  { induction ds as [|d ds IHd]; intros r0 Hd; cbn [ev_go]; [discriminate|].
+    destruct (sym_has d r0); [apply IHd; intros x Hx; apply Hd; right; exact Hx|].
+    pose proof (IH d r0 (Hd d (or_introl eq_refl))) as Hn.
+    destruct (expand_value f values (build_graph values) d r0) as [[r1|]|]; try discriminate; [|congruence].
+    apply IHd. intros x Hx. apply Hd. right. exact Hx. }
+  specialize (G deps res Hdeps). destruct (ev_go (expand_value f values (build_graph values)) deps res) as [[r1|]|]; try discriminate. congruence.
+Qed.
+
+Lemma keys_have k (values : symtab) : In k (map fst values) -> sym_has k values = true.
+Proof.
+  unfold sym_has. induction values as [|[k0 v0] t IH]; intros Hk; [destruct Hk|]. cbn [sym_find map fst In] in *.
+  destruct (text_eqb k k0) eqn:E; [reflexivity|]. destruct Hk as [<-|Hk]; [rewrite text_eqb_refl in E; discriminate|apply IH; exact Hk].
+Qed.
+
+Theorem expand_expressions_succeeds values : graph_has_cycle (build_graph values) = Some false ->
+  exists res, expand_expressions values (build_graph values) = Some (Some res).
+Proof.
+  intros Hac. pose proof (expand_expressions_total values (build_graph values) Hac (build_graph_length values)) as Ht. rewrite expand_expressions_eq in *.
+  assert (G : forall ks r0, (forall k, In k (map fst ks) -> sym_has k values = true) -> ee_go values (build_graph values) ks r0 <> Some None).
+  { induction ks as [|[k v] t IH]; intros r0 Hk; cbn [ee_go]; [discriminate|].
+    destruct (sym_has k r0); [apply IH; intros x Hx; apply Hk; right; exact Hx|].
+    pose proof (expand_value_no_error values (S (S (length values))) k r0 (Hk k (or_introl eq_refl))) as Hn.
+    destruct (expand_value (S (S (length values))) values (build_graph values) k r0) as [[r1|]|]; try discriminate; [|congruence].
+    apply IH. intros x Hx. apply Hk. right. exact Hx. }
+  specialize (G values [] (fun k => keys_have k values)). destruct (ee_go values (build_graph values) values []) as [[r|]|]; try congruence. exists r. reflexivity.
+Qed.
